@@ -34,7 +34,14 @@ func (vc *VC) evalCall(fr *frame, st *State, c *ast.CallExpr) Val {
 	}
 	fv, _ := vc.evalExpr(fr, st, c.Fun).(*FuncV)
 	if fv == nil {
-		vc.errorf(c.Pos(), "call of unresolved function value")
+		// a call through a function value the verifier cannot resolve is only accepted where it is unreachable
+		for _, a := range c.Args {
+			vc.evalExpr(fr, st, a)
+		}
+		if !vc.noSafety {
+			vc.oblige(st, "safety", "funcvalue", c.Pos(), False, "call through an unresolved function value must be unreachable")
+		}
+		st.pc = False
 		return vc.havocVal(fr.typeOf(c), "call")
 	}
 	sig, _ := fr.typeOf(c.Fun).Underlying().(*types.Signature)
@@ -391,8 +398,10 @@ func (vc *VC) appendN(st *State, s Term, leaves []leaf, n Term, elemAt func(lf l
 	nb := vc.allocRef(st, "aparr")
 	ncap := vc.fresh("apcap", SInt)
 	vc.assume(st, Ge(ncap, newLen))
-	for _, lf := range leaves {
+	oldHeaps := make([]Term, len(leaves))
+	for li, lf := range leaves {
 		h := vc.heap(st, lf.key, HeapSort(lf.sort))
+		oldHeaps[li] = h
 		// in place: cells [off+len, off+len+n) of base(s) overwritten
 		a1 := vc.fresh("ap1", ArrSort(lf.sort))
 		j := Term{"j?", SInt}
@@ -414,7 +423,11 @@ func (vc *VC) appendN(st *State, s Term, leaves []leaf, n Term, elemAt func(lf l
 		vc.setHeap(st, lf.key, Ite(inplace, Store(h, SBase(s), a1), Store(h, nb, a2)))
 	}
 	res := Ite(inplace, MkSlice(SBase(s), SOff(s), newLen, SCap(s)), MkSlice(nb, IntLit(0), newLen, ncap))
-	return vc.define("apres", res)
+	out := vc.define("apres", res)
+	for i, lf := range leaves {
+		vc.linkSlices(lf.key, HeapSort(lf.sort), st.heaps[lf.key], oldHeaps[i], out, s, IntLit(0))
+	}
+	return out
 }
 
 // ---------------------------------------------------------------------------
